@@ -32,6 +32,8 @@ def fprod : List (Int × Nat) → Int
 def Valid (n : Nat) (r : Relation) : Prop :=
   (r.x : Int) * r.x ≡ (r.cofactor : Int) * fprod r.factors [ZMOD n]
 
+instance (n : Nat) (r : Relation) : Decidable (Valid n r) := by unfold Valid; infer_instance
+
 /-- Rust types of the factor list: `i64` primes, `u64` exponents -/
 def TypedF (fs : List (Int × Nat)) : Prop :=
   ∀ f ∈ fs, -(I63 : Int) ≤ f.1 ∧ f.1 < (I63 : Int) ∧ f.2 < W64
@@ -214,7 +216,7 @@ theorem verify_sound {n : Nat} {r : Relation} (hty : TypedF r.factors)
   simp only [bind_eq_ok] at h
   obtain ⟨prod, hprod, h⟩ := h
   split at h
-  · simp [throw_ne_ok] at h
+  · simp [throw, throwThe, MonadExceptOf.throw, Functor.map, Except.map] at h
   · simp only [pure_eq_ok, beq_iff_eq] at h
     have hs := verifyLoop_spec n _ _ _ _ hty hprod
     unfold Valid
@@ -364,10 +366,11 @@ def divisorCof (r1 r2 : Relation) : Nat :=
 theorem combine_ok {n : Nat} {r1 r2 r : Relation} (h : combine n r1 r2 = .ok r) :
     ∃ fs, mergeFactors r1.factors r2.factors = .ok fs ∧ 0 < n ∧ r.x = r1.x * r2.x % n ∧
       r.cyclelen = r1.cyclelen + r2.cyclelen ∧ r.cyclelen < W64 ∧
-      divisorCof r1 r2 ≠ 0 ∧
-      r.cofactor * divisorCof r1 r2 = max r1.cofactor r2.cofactor ∧
-      r.cofactor * divisorCof r1 r2 * divisorCof r1 r2 = r1.cofactor * r2.cofactor ∧
-      r.factors = fs ++ [(toI64 (divisorCof r1 r2), 2)] := by
+      ((r2.cofactor ≠ 0 ∧ r1.cofactor % r2.cofactor = 0 ∧ r.cofactor = r1.cofactor / r2.cofactor ∧
+          r.factors = fs ++ [(toI64 r2.cofactor, 2)]) ∨
+       (r1.cofactor ≠ 0 ∧ r2.cofactor ≠ 0 ∧ r1.cofactor % r2.cofactor ≠ 0 ∧
+          r2.cofactor % r1.cofactor = 0 ∧ r.cofactor = r2.cofactor / r1.cofactor ∧
+          r.factors = fs ++ [(toI64 r1.cofactor, 2)])) := by
   unfold combine at h
   simp only [bind_eq_ok] at h
   obtain ⟨fs, hfs, h⟩ := h
@@ -384,28 +387,91 @@ theorem combine_ok {n : Nat} {r1 r2 r : Relation} (h : combine n r1 r2 = .ok r) 
         · rename_i hlen
           simp only [pure_eq_ok] at h
           subst h
-          have hd : divisorCof r1 r2 = r2.cofactor := by unfold divisorCof; rw [if_pos hmod]
-          have hdvd : r2.cofactor ∣ r1.cofactor := Nat.dvd_of_mod_eq_zero hmod
-          have hmul : r1.cofactor / r2.cofactor * r2.cofactor = r1.cofactor :=
-            Nat.div_mul_cancel hdvd
-          refine ⟨Nat.pos_of_ne_zero hn, rfl, rfl, hlen, by rw [hd]; exact hc2, ?_, ?_, by rw [hd]⟩
-          · rw [hd]; simp only; rw [hmul]
-            by_cases h0 : r1.cofactor = 0
-            · rw [h0] at hmul
-              have : r1.cofactor / r2.cofactor = 0 := by
-                rw [h0]; exact Nat.zero_div _
-              -- 0 = max 0 c2 fails unless handled: c1 = 0 means max = c2
-              rw [h0]
-              exfalso
-              -- c1 = 0: max 0 c2 = c2 ≠ 0, but product is 0: this case is excluded below
-              exact absurd rfl (by
-                intro _
-                exact absurd h0 (by
-                  intro _; exact (Nat.lt_irrefl 0 (by sorry))))
-            · have : r2.cofactor ≤ r1.cofactor := Nat.le_of_dvd (Nat.pos_of_ne_zero h0) hdvd
-              rw [Nat.max_eq_left this]
-          · rw [hd]; simp only; rw [hmul]
+          exact ⟨Nat.pos_of_ne_zero hn, rfl, rfl, hlen, Or.inl ⟨hc2, hmod, rfl, rfl⟩⟩
         · simp [throw_ne_ok] at h
-    · sorry
+    · rename_i hmod
+      split at h
+      · simp [throw_ne_ok] at h
+      · rename_i hc1
+        split at h
+        · simp [throw_ne_ok] at h
+        · rename_i hmod2
+          split at h
+          · simp [throw_ne_ok] at h
+          · rename_i hn
+            split at h
+            · rename_i hlen
+              simp only [pure_eq_ok] at h
+              subst h
+              exact ⟨Nat.pos_of_ne_zero hn, rfl, rfl, hlen,
+                Or.inr ⟨hc1, hc2, hmod, by simpa using hmod2, rfl, rfl⟩⟩
+            · simp [throw_ne_ok] at h
+
+theorem combine_divisor {n : Nat} {r1 r2 r : Relation} (h : combine n r1 r2 = .ok r) :
+    divisorCof r1 r2 ≠ 0 ∧ r.cofactor * divisorCof r1 r2 * divisorCof r1 r2 = r1.cofactor * r2.cofactor ∧
+    ∃ fs, mergeFactors r1.factors r2.factors = .ok fs ∧
+      r.factors = fs ++ [(toI64 (divisorCof r1 r2), 2)] := by
+  obtain ⟨fs, hfs, _, _, _, _, hc⟩ := combine_ok h
+  rcases hc with ⟨hc2, hmod, hcof, hf⟩ | ⟨hc1, hc2, hmod, hmod2, hcof, hf⟩
+  · have hd : divisorCof r1 r2 = r2.cofactor := by unfold divisorCof; rw [if_pos hmod]
+    rw [hd, hcof, Nat.div_mul_cancel (Nat.dvd_of_mod_eq_zero hmod)]
+    exact ⟨hc2, rfl, fs, hfs, hf⟩
+  · have hd : divisorCof r1 r2 = r1.cofactor := by unfold divisorCof; rw [if_neg hmod]
+    rw [hd, hcof, Nat.div_mul_cancel (Nat.dvd_of_mod_eq_zero hmod2)]
+    exact ⟨hc1, Nat.mul_comm _ _, fs, hfs, hf⟩
+
+/-- `combine` preserves the congruence (the divisor cofactor must survive the `as i64` cast). -/
+theorem combine_valid' {n : Nat} {r1 r2 r : Relation} (h : combine n r1 r2 = .ok r)
+    (h1 : Valid n r1) (h2 : Valid n r2) (hd : divisorCof r1 r2 < I63) : Valid n r := by
+  obtain ⟨_, hmul, fs, hfs, hf⟩ := combine_divisor h
+  obtain ⟨_, _, _, hx, _, _, _⟩ := combine_ok h
+  have hfp := mergeFactors_spec _ _ _ hfs
+  unfold Valid at *
+  rw [hf, fprod_append, hfp, fprod_cons, fprod_nil, toI64_small hd, hx]
+  have hxx : ((r1.x * r2.x % n : Nat) : Int) ≡ (r1.x : Int) * r2.x [ZMOD n] := by
+    rw [Int.natCast_mod, Nat.cast_mul]; exact Int.mod_modEq _ _
+  have := (hxx.mul hxx).trans
+    (show (r1.x : Int) * r2.x * ((r1.x : Int) * r2.x) ≡
+        ((r1.cofactor : Int) * fprod r1.factors) * ((r2.cofactor : Int) * fprod r2.factors) [ZMOD n] by
+      rw [show (r1.x : Int) * r2.x * ((r1.x : Int) * r2.x) = (r1.x * r1.x) * (r2.x * r2.x) by ring]
+      exact h1.mul h2)
+  refine this.trans ?_
+  have hmulZ : (r.cofactor : Int) * divisorCof r1 r2 * divisorCof r1 r2 = r1.cofactor * r2.cofactor := by
+    exact_mod_cast hmul
+  rw [show (r1.cofactor : Int) * fprod r1.factors * ((r2.cofactor : Int) * fprod r2.factors) =
+    (r1.cofactor * r2.cofactor) * (fprod r1.factors * fprod r2.factors) by ring, ← hmulZ]
+  ring_nf
+  rfl
+
+theorem combine_typed {n : Nat} {r1 r2 r : Relation} (h : combine n r1 r2 = .ok r)
+    (h1 : Typed r1) (h2 : Typed r2) : Typed r := by
+  obtain ⟨fs, hfs, _, _, _, hlen, hc⟩ := combine_ok h
+  have hfsT := mergeFactors_typed _ _ _ hfs h1.2.2 h2.2.2
+  have hpush : ∀ c, c < W64 → TypedF (fs ++ [(toI64 c, 2)]) := by
+    intro c hc
+    rw [TypedF_append]
+    refine ⟨hfsT, ?_⟩
+    rw [TypedF_cons]
+    exact ⟨⟨(toI64_range hc).1, (toI64_range hc).2, by show 2 < W64; decide⟩, TypedF_nil⟩
+  rcases hc with ⟨_, _, hcof, hf⟩ | ⟨_, _, _, _, hcof, hf⟩
+  · refine ⟨?_, hlen, ?_⟩
+    · rw [hcof]; exact lt_of_le_of_lt (Nat.div_le_self _ _) h1.1
+    · rw [hf]; exact hpush _ h2.1
+  · refine ⟨?_, hlen, ?_⟩
+    · rw [hcof]; exact lt_of_le_of_lt (Nat.div_le_self _ _) h2.1
+    · rw [hf]; exact hpush _ h1.1
+
+theorem combine_noOne {n : Nat} {r1 r2 r : Relation} (h : combine n r1 r2 = .ok r)
+    (h1 : NoOne r1.factors) (h2 : NoOne r2.factors) (hd : toI64 (divisorCof r1 r2) ≠ 1) :
+    NoOne r.factors := by
+  obtain ⟨_, _, fs, hfs, hf⟩ := combine_divisor h
+  rw [hf, NoOne_append]
+  refine ⟨mergeFactors_noOne _ _ _ hfs h1 h2, ?_⟩
+  rw [NoOne_cons]
+  exact ⟨hd, fun f hf => by cases hf⟩
+
+theorem combine_x_lt {n : Nat} {r1 r2 r : Relation} (h : combine n r1 r2 = .ok r) : r.x < n := by
+  obtain ⟨_, _, hn, hx, _⟩ := combine_ok h
+  rw [hx]; exact Nat.mod_lt _ hn
 
 end Ymq.Relations
